@@ -24,12 +24,16 @@ LEAN_MODULE = "LiquidVerif.Props.C07"
 TRANSLATE = False
 RULE = (
     "A case is a generated program (main template, up to three partials, render data) over text/output/assign/capture/"
-    "ifchanged/cycle/if-else/for-else/include/render with 1-, 2-, 3- and 4-byte characters, blank (NullIO) blocks, "
+    "ifchanged/cycle/if-else/unless/with/for-else/tablerow/include/render, the filters append/prepend/size, 1-, 2-, 3- and "
+    "4-byte characters, carriage returns, blank (NullIO) blocks, "
     "acyclic and self-recursive partial pools. stream out: the unlimited render gives U bytes; output_stream_limit takes "
     "0, 1, U-1, U, U+1, 2U, 2U+1 and up to 10 further values in [0, 2U+1] (all of them when 2U+1 <= 16); stream ns: an "
     "instrumented unlimited render gives the sizes measured after each assignment; local_namespace_limit takes 0, 1 and "
     "s-1, s, s+1 for measured sizes s (<= 16 values) and 2*max. Every limit value is rendered by the real engine and by "
-    "the model and compared on (ok + output text [+ size log] | error class). Non-trivial: the unlimited render "
+    "the model and compared on (ok + output text [+ size log] | error class). stream lax: the same programs in LAX and "
+    "WARN mode under output / namespace / loop / depth limits and four multi-limit configurations, model in LAX mode "
+    "(errors dropped by the render loop), oracle: a completed render returns <= L bytes and nothing but a top-level "
+    "ContextDepthError is raised. Non-trivial: the unlimited render "
     "completes, the sweep contains both a completing and a raising value, and the program has a capture/ifchanged/"
     "partial (out) or at least two assignments (ns)."
 )
@@ -47,18 +51,19 @@ TRUSTED_BASE = [
     "get_size_of_locals() after super().assign()",
 ]
 ASSUMPTIONS = [
-    "STRICT error mode; in LAX/WARN mode a suppressed OutputStreamLimitError/LocalNamespaceLimitError truncates the output by design (C03 governs)",
+    "sentence 1a (bytes <= L) is proved and checked in every error mode; sentences 1b and 2 are claimed for STRICT mode only: in LAX/WARN mode a suppressed error lets the render continue (lax_locals_exceed_limit_counterexample)",
+    "block_nesting_limit is kept at its default in LAX mode: what the parser does after a suppressed BlockNestingError is not modelled",
     "sys.getsizeof is treated as a function of the value (parameter sz of the model); CPython's cached UTF-8 form makes "
     "it history dependent for the shared single-character Latin-1 strings, which the generators avoid",
-    "suppress_blank_control_flow_blocks is at its default (True); break/continue, tablerow, case/unless, "
-    "increment/decrement, liquid, macro/call, extends/block, filters are outside the model (stream codepoints and C08's "
-    "stream gen exercise them through the direct oracle only)",
+    "suppress_blank_control_flow_blocks is at its default (True); break/continue, case, tablerow cols/limit/offset, "
+    "increment/decrement, liquid, macro/call, extends/block and filters other than append/prepend/size are outside the "
+    "model (stream codepoints and C08's stream gen exercise them through the direct oracle only)",
     "Buf.size / Cx.nsCarry / W.log of the model are ghost-exact when the corresponding limit is None or falsy (the code "
     "stores nothing / 0 there and never reads it)",
 ]
 MANIFEST = {
     "technique": "Lean 4 proof (three mutual functional inductions over a render-with-limits model: simulation between limit configurations, buffer invariant size = utf8Len text <= limit, local-namespace invariant with carried sizes) + differential correspondence with limit sweeps",
-    "text": "output_le_limit (a completed render returns at most L UTF-8 bytes; every sub-buffer stays within its remaining budget), strict_over_limit_raises (if the render without output limit completes with more than L bytes, the strict render under L raises OutputStreamLimitError and nothing else), locals_le_limit_partial / locals_le_limit_every_context (for M != 0 every size measured after an assignment, in the top-level context and in every copied context where the measure includes the carried size, is <= M) hold for all templates, partial pools, data and all values of the other limits; locals_le_limit_counterexample: M = 0 is not enforced (falsy test), a known finding. The model is tied to the source by generated programs with 1-4-byte text swept over output limits 0..2U+1 and namespace limits around every measured size.",
+    "text": "output_le_limit (a completed render returns at most L UTF-8 bytes, in STRICT and in LAX/WARN mode; every sub-buffer stays within its remaining budget, is limited even when that budget is exactly 0), strict_over_limit_raises (if the render without output limit completes with more than L bytes, the strict render under L raises OutputStreamLimitError and nothing else), locals_le_limit_partial / locals_le_limit_every_context (for M != 0 every size measured after an assignment, in the top-level context and in every copied context where the measure includes the carried size, is <= M) hold for all templates, partial pools, data and all values of the other limits; locals_le_limit_counterexample: M = 0 is not enforced (falsy test), a known finding. The model is tied to the source by generated programs with 1-4-byte text swept over output limits 0..2U+1 and namespace limits around every measured size.",
     "note": "Trusted: Lean kernel, the hand model Model/Limits.lean, the correspondence harness with its assignment observer, CPython utf-8/getsizeof primitives (modelled as definitions, sampled). STRICT mode only.",
 }
 
@@ -307,6 +312,8 @@ def regress_programs():
     out.append(("blank-capture", P([["capture", "c", [_t(" \n ")]], _t("["), ["output", ["var", "c"]], _t("]")])))
     out.append(("render-carry", P([["assign", "a", ["lit", "hello" + E]], ["render", "p0", None, [["y", ["var", "a"]]]], ["assign", "b", ["lit", 7]]],
                                   [("p0", [["assign", "z", ["var", "y"]], ["render", "p1", None, []], ["output", ["var", "z"]]]), ("p1", [["capture", "q", [_t(G + G)]], ["output", ["var", "q"]]])])))
+    out.append(("render-through-assignment-free-partial", P([["assign", "a", ["lit", "hello world " + E]], ["render", "p0", None, []], ["include", "p0", None, []]],
+                                  [("p0", [_t("["), ["render", "p1", None, [["y", ["lit", 2]]]], _t("]")]), ("p1", [["capture", "b", [["for", "v", ["lit", [1, 2, 3]], [_t("ж")], []]]], ["output", ["var", "y"]], ["render", "p2", None, []]]), ("p2", [["assign", "z", ["lit", "deep"]]])])))
     out.append(("render-for-locals-persist", P([["render", "p0", [True, ["var", "arr"], "y"], []]],
                                                [("p0", [["capture", "acc", [["output", ["var", "acc"]], ["output", ["var", "y"]]]], ["output", ["var", "acc"]], _t("|")])],
                                                [("arr", ["né", "ж", "x"])])))
@@ -321,6 +328,13 @@ def regress_programs():
     out.append(("self-include", P([_t("a"), ["include", "p0", None, []]], [("p0", [_t(E), ["include", "p0", None, []]])])))
     out.append(("include-in-render", P([["render", "p0", None, []]], [("p0", [["include", "p1", None, []]]), ("p1", [_t("x")])])))
     out.append(("missing-partial-after-output", P([_t("abc"), ["include", "nope", None, []]])))
+    out.append(("tablerow-carry", P([["tablerow", "v", ["var", "arr"], [["output", ["var", "v"]], ["for", "u", ["lit", [1, 2]], [_t(E)], []]]], _t("|"), ["tablerow", "v", ["var", "zz"], [_t("x")]]], (), [("arr", ["a", 2, "жы"])])))
+    out.append(("with-extends-scope", P([["with", [["y", ["lit", "in" + E]], ["k", ["var", "g"]]], [["output", ["var", "y"]], ["capture", "c", [["output", ["var", "k"]]]], ["with", [["y", ["lit", 5]]], [["output", ["var", "y"]]]]]], ["output", ["var", "y"]], ["output", ["var", "c"]]], (), [("g", "G" + G)])))
+    out.append(("unless-else", P([["unless", ["var", "zz"], [_t("no" + E)], [_t("yes")]], ["unless", ["lit", 1], [_t("a")], [_t("  ")]], ["unless", ["var", "nil_"], [_t(" "), ["assign", "a", ["lit", "v"]]], []], ["output", ["var", "a"]]], (), [("nil_", None)])))
+    out.append(("filters-grow-namespace", P([["assign", "a", ["lit", "x"]], ["for", "v", ["lit", [1, 2, 3]], [["assign", "a", ["filt", "append", ["filt", "append", ["var", "a"], ["var", "a"]], ["lit", E]]], ["assign", "n", ["filt", "size", ["var", "a"]]]], []], ["output", ["filt", "prepend", ["var", "n"], ["var", "nil_"]]], ["output", ["filt", "size", ["var", "arr"]]], ["output", ["filt", "append", ["var", "arr"], ["var", "zz"]]]], (), [("nil_", None), ("arr", ["p", 1, None])])))
+    out.append(("render-with-no-globals", P([["assign", "x", ["lit", "val" + E]], ["render", "p0", [False, ["var", "x"], "y"], []], ["render", "p0", [True, ["var", "x"], "p0"], []]], [("p0", [_t("["), ["output", ["var", "y"]], ["output", ["var", "p0"]], _t("]")])])))
+    out.append(("nested-capture-at-exhausted-budget", P([_t("ab"), ["capture", "c", [_t("cd"), ["capture", "d", [_t("e")]], ["ifchanged", [_t("f")]]]], ["capture", "e", [["capture", "f", [_t(E)]]]], ["output", ["var", "d"]]])))
+    out.append(("carriage-returns", P([_t("a\r\nb\rc"), ["capture", "c", [_t("\r")]], ["output", ["var", "c"]], ["output", ["var", "g"]]], (), [("g", "x\r\ny")])))
     out.append(("deep-nesting", P([["if", ["lit", 1], [["for", "v", ["lit", [1, 2]], [["capture", "c", [["ifchanged", [["if", ["var", "v"], [_t("d" + G)], []]]]]], ["output", ["var", "c"]]], []]], []]])))
     return out
 
@@ -484,5 +498,71 @@ class CodepointStream(Stream):
         return t or ["bmp"]
 
 
+class LaxStream(_ProgStream):
+    """LAX / WARN mode: the render loop drops every node's error and goes on. The model mirrors that (`catchR`), and the
+    part of C07 that holds in every mode is checked directly: a completed render returns at most L bytes."""
+
+    name = "lax"
+    label = "lax"
+    n_quick = 160
+    n_thorough = 1500
+
+    def plan(self, case, base, spy):
+        rng = Rng(case["seed"], "lax-plan")
+        U = lc.utf8_len(base["ok"]) if "ok" in base else 10
+        outs = lc.thin(list(range(0, 2 * U + 2)), rng, 8, keep=[0, 1, U - 1, U, U + 1])
+        sizes = sorted({s[1] for s in spy["sizes"]})
+        nss = lc.thin(lc.around(sizes), rng, 5, keep=[0, 1])
+        prods = sorted(set(spy["products"]))
+        loops = lc.thin(lc.around(prods), rng, 4, keep=[1])
+        dmax = max(spy["depths"], default=4)
+        depths = lc.thin(list(range(3, min(dmax, 31) + 2)), rng, 5, keep=[3, 4, 5, dmax])
+        cfgs = [_lim(output=v) for v in outs] + [_lim(ns=v) for v in nss] + [_lim(loop=v) for v in loops] + [_lim(depth=v) for v in depths]
+        for _ in range(4):
+            cfgs.append(_lim(output=rng.choice(outs), ns=rng.choice(nss + [None]), loop=rng.choice(loops + [None]), depth=rng.choice(depths + [30, 30])))
+        return cfgs
+
+    def impl(self, case):
+        prog = case["prog"]
+        base = lc.run_prog(prog, _lim(), mode="lax")
+        spy = lc.new_spy()
+        lc.run_prog(prog, _lim(ns=lc.BIG), spy=spy)
+        cfgs = self.plan(case, base, spy)
+        rs = [lc.run_prog(prog, cfg, mode=("warn" if i % 4 == 1 else "lax"), is_async=(i % 6 == 5)) for i, cfg in enumerate(cfgs)]
+        return {"base": lc.canon_outcome(base), "configs": cfgs, "results": [lc.canon_outcome(r) for r in rs]}
+
+    def line_obs(self, case, obs):
+        prog = case["prog"]
+        return ["limits", lc.model_prog(prog, lax=True), prog["main"], [_lim()] + obs["configs"]]
+
+    def compare_view(self, case, obs):
+        return {"base": obs["base"], "results": obs["results"]}
+
+    def canon_model(self, case, mobs):
+        if not isinstance(mobs, list):
+            return mobs
+        c = [lc.canon_model_outcome(m, False) for m in mobs]
+        return {"base": c[0], "results": c[1:]}
+
+    def oracle(self, case, obs):
+        for cfg, r in zip(obs["configs"], obs["results"]):
+            if r[0] == "ok":
+                if cfg["output"] is not None and lc.utf8_len(r[1]) > cfg["output"]:
+                    return ("lax|exceeds-limit", f"{cfg}: a completed LAX/WARN render returned {lc.utf8_len(r[1])} bytes")
+            elif not (r[1] == "ContextDepthError" and cfg["depth"] < 4):
+                return (f"lax|raised|{r[1]}", f"{cfg}: LAX/WARN mode raised {r[1]}")
+        return None
+
+    def nontrivial(self, case, obs):
+        base = obs["base"]
+        return base[0] == "ok" and any(r[0] == "ok" and r != base for r in obs["results"])
+
+    def tags(self, case, obs):
+        t = super().tags(case, obs)
+        if any(r[0] == "ok" and r != obs["base"] for r in obs["results"]):
+            t.append("suppressed-error-changed-output")
+        return t
+
+
 def streams(ctx):
-    return [RegressStream(), OutStream(), NsStream(), PrimStream(), CodepointStream()]
+    return [RegressStream(), OutStream(), NsStream(), LaxStream(), PrimStream(), CodepointStream()]
